@@ -92,6 +92,49 @@ MaxResOK(asked, allowed, fn, rng) ==
 (* the range a store is asked for covers the querier's range *)
 RangeCovers(rmin, rmax, lo, hi) == rmin <= lo /\ rmax >= hi
 
+(* ---- downsampled data (phase 2) --------------------------------------------- *)
+(* A store may hold a chunk also in downsampled form: per window one sample of    *)
+(* each aggregate.  Which aggregate a query reads is fixed by its PromQL function *)
+(* (querier: aggrsFromFunc); without a matching function the average sum/count.   *)
+AggrKind(fn) ==
+    CASE fn \in {"min", "min_over_time"} -> "min"
+      [] fn \in {"max", "max_over_time"} -> "max"
+      [] fn \in {"count", "count_over_time"} -> "count"
+      [] fn \in {"sum_over_time"} -> "sum"
+      [] fn \in {"increase", "rate", "irate", "resets", "xincrease", "xrate"} -> "counter"
+      [] OTHER -> "avg"
+(* what a query with function fn sees of chunk c of replica r: the aggregate of   *)
+(* its downsampled form when the store serves that form, else the raw samples     *)
+EffChunk(r, c, served, fn) == IF served THEN c.agg[AggrKind(fn)] ELSE SubSeq(r.samples, c.lo, c.hi)
+SampleLess(a, b) == a[1] < b[1] \/ (a[1] = b[1] /\ a[2] < b[2])
+(* a replica series as the query sees it through the stores S: union of its chunks *)
+EffSamples(r, S, Served(_), fn) ==
+    SetToSortSeq(UNION { RangeOf(EffChunk(r, r.chunks[k], Served(r.chunks[k]), fn))
+                         : k \in { k \in DOMAIN r.chunks : r.chunks[k].st \in S } }, SampleLess)
+(* two chunks of one replica never disagree about a timestamp *)
+ConsistentSamples(ss) == \A i \in 1..(Len(ss) - 1) : ss[i][1] < ss[i + 1][1]
+EffView(reps, S, Served(_), fn) ==
+    { [lbls |-> r.lbls, id |-> r.id, samples |-> EffSamples(r, S, Served, fn)]
+      : r \in { x \in reps : \E k \in DOMAIN x.chunks : x.chunks[k].st \in S } }
+
+(* C02 seen end to end: replicas of a counter that never decrease give an answer   *)
+(* that never decreases (the counter dedup path may shift values, never down).     *)
+NonDecreasing(ss) == \A i \in 1..(Len(ss) - 1) : ss[i][1] < ss[i + 1][1] /\ ss[i][2] <= ss[i + 1][2]
+TimeProvenance(o, reps, RL) ==
+    LET have == UNION { { x[1] : x \in RangeOf(r.samples) } : r \in Group(reps, RL, o.lbls) } IN
+    \A i \in DOMAIN o.samples : o.samples[i][1] \in have
+
+(* ---- metadata calls (phase 2) -------------------------------------------------- *)
+(* LabelNames / LabelValues of the same querier: with dedup on the replica labels   *)
+(* are gone; everything the visible series in range carry is listed; nothing is      *)
+(* listed that no series of the world carries; each entry once.                      *)
+NamesMust(reps, RL, lo, hi) == UNION { DOMAIN Strip(r.lbls, RL) : r \in { x \in reps : InRange(x.samples, lo, hi) # <<>> } }
+NamesMay(reps, RL) == UNION { DOMAIN Strip(r.lbls, RL) : r \in reps }
+ValuesMust(reps, RL, n, lo, hi) ==
+    { Strip(r.lbls, RL)[n] : r \in { x \in reps : n \in DOMAIN Strip(x.lbls, RL) /\ InRange(x.samples, lo, hi) # <<>> } }
+ValuesMay(reps, RL, n) == { Strip(r.lbls, RL)[n] : r \in { x \in reps : n \in DOMAIN Strip(x.lbls, RL) } }
+NoDuplicates(s) == \A i, j \in DOMAIN s : i # j => s[i] # s[j]
+
 (* ======================= algorithm level =============================== *)
 (* Chunks as the querier sees them: [min, max, samples, tie].  Two chunks with *)
 (* the same samples have the same bytes (XOR encoding is a function of the     *)
